@@ -18,7 +18,7 @@
         [C06_finalize_error], [C06_frame]; Label of an existing name     -> [C06_label_redefinition].
      5. Non-vacuity Examples (forward +127, backward -128, a JMP, two references to one label, +128, -129,
         missing label). *)
-From Coq Require Import ZArith NArith List Bool Lia Sorted.
+From Coq Require Import ZArith NArith List Bool Lia Sorted Permutation.
 From Lib Require Import ZList.
 From Model Require Import Emitter EmitterTie EmitterExt.
 Import ListNotations.
@@ -1128,8 +1128,8 @@ Record WF (e : em) : Prop := mkWF {
 Definition covers (ord : list lbl) (m : list (lbl * list Z)) : Prop := forall l, In l (keys m) -> In l ord.
 Lemma covers_keys : forall m, covers (keys m) m.
 Proof. intros m l H. exact H. Qed.
-Lemma covers_perm : forall m ord, (forall l, In l (keys m) -> In l ord) -> covers ord m.
-Proof. intros m ord H. exact H. Qed.
+Lemma covers_perm : forall m ord, Permutation (keys m) ord -> covers ord m.
+Proof. intros m ord H l Hl. eapply Permutation_in; eassumption. Qed.
 
 (* all referenced labels are defined and all rel8 distances are in [-128, 127] *)
 Definition resolvable (e : em) : Prop :=
